@@ -236,10 +236,12 @@ def types_for(tier):
 # fixed descriptors on which the unchanged tree is known to violate C02 / C07 (near-breakdown handling with absolute thresholds)
 FIXED_BREAKDOWN = {
     "C02": ["cls=gen;ty=d;n=11;nev=1;ncv=8;seed=764675;hist=N,V1,C0;sv1=rnd;args0=1:20:-10:5;meas=1;ref=0;lgs=0;fam=lowrank;rank=1",
-            "cls=genrs;ty=f;n=34;nev=5;ncv=18;seed=175185;hist=N,I,C0,C1;args0=4:80:-3:1;args1=1:4:-4:6;sv1=rnd2;sv2=rnd2;meas=1;ref=1;fam=presc;ncp=12;sigma=-1.63"],
+            "cls=genrs;ty=f;n=34;nev=5;ncv=18;seed=175185;hist=N,I,C0,C1;args0=4:80:-3:1;args1=1:4:-4:6;sv1=rnd2;sv2=rnd2;meas=1;ref=1;fam=presc;ncp=12;sigma=-1.63",
+            "cls=gencs;ty=d;n=67;nev=5;ncv=11;seed=471933;hist=N,I,C0;args0=1:10:-10:2;args1=4:4:-10:0;sv1=rnd2;sv2=rnd;meas=1;ref=1;fam=rand;sigma=0.37;sigmai=1.9"],
     "C07": ["cls=gen;ty=l;n=20;nev=1;ncv=8;seed=733566;hist=N,V1,C0;sv1=rnd;args0=0:20:-6:1;meas=2;ref=0;lgs=0;fam=lowrank;rank=1",
             "cls=sym;ty=f;n=15;nev=1;ncv=9;seed=719364;hist=N,V1,C0;sv1=e1;args0=3:20:-3:7;meas=2;ref=0;lgs=-20;fam=diag;spec=lin",
-            "cls=gencs;ty=d;n=69;nev=3;ncv=8;seed=588826;hist=N,I,C0;args0=6:80:-12:6;args1=0:80:-3:0;sv1=rnd2;sv2=rnd;meas=2;ref=0;fam=presc;ncp=34;sigma=2.45;sigmai=0.3"],
+            "cls=gencs;ty=d;n=69;nev=3;ncv=8;seed=588826;hist=N,I,C0;args0=6:80:-12:6;args1=0:80:-3:0;sv1=rnd2;sv2=rnd;meas=2;ref=0;fam=presc;ncp=34;sigma=2.45;sigmai=0.3",
+            "cls=gen;ty=d;n=20;nev=3;ncv=15;seed=667920;hist=N,I,C0,V1,C1,I,C0;args0=4:80:-6:5;args1=1:1:-10:0;sv1=rnd;sv2=rnd;meas=2;ref=0;fam=presc;ncp=10"],
 }
 
 
